@@ -31,15 +31,21 @@ RULE = ("random objective (objectives.gen_spec incl. plateau/step/needle/const),
         "density 2..12 (N*m<=50), r in (1.05,6], eps in {1e-4..1.5}, itersLimit in {1..400}; run by Solve or by "
         "DoGlobalIteration batches; every iteration index of the run is tested. A case is distinct by its full "
         "parameter set and non-trivial if it has >= 4 trials, >= 2 distinct objective values and M grew above 1 or "
-        "the best value changed at least once (so the re-computation paths were exercised).")
+        "the best value changed at least once (so the re-computation paths were exercised). 4% overflow-band objectives (penalty 1e155..inf on a "
+        "band): argmax with a NaN characteristic counting as the lowest one, no formula clause.")
 
 
 def close(a, b, scale=0.0):
     return abs(a - b) <= 1e-9 * max(abs(a), abs(b), scale) + 1e-12
 
 
-def spec_replay(hist, n, r):
-    """independent AGP specification on the (x, z) history; returns (failures, info)"""
+def spec_replay(hist, n, r, overflow=False):
+    """independent AGP specification on the (x, z) history; returns (failures, info).
+    overflow=True (objectives with values beyond 1e154: their squared differences overflow): the characteristics are evaluated with the
+    very floating-point expressions of the statement as the library writes them, a characteristic that comes out as NaN (inf/inf) counts as
+    the LOWEST one (the library's convention since the repairs F11/F13: such an interval is taken only when nothing better exists), and
+    only the clauses first-point / strictly-inside / no-repeat / argmax are tested (the new-point formula is about exact arithmetic)"""
+    nan_low = (lambda v: float("-inf") if v != v else v) if overflow else (lambda v: v)
     bad = []
     info = {"M_grew": 0, "best_changed": 0, "boundary_chosen": 0, "ties": 0, "iterations": 0}
     xs = [0.0, 1.0]               # sorted coordinates
@@ -68,19 +74,24 @@ def spec_replay(hist, n, r):
                 D = pow(xs[i] - xs[i - 1], 1.0 / n)
                 zl, zr = zs[i - 1], zs[i]
                 if zl is not None and zr is not None:
-                    R = D + (zr - zl) * (zr - zl) / (rm * rm * D) - 2.0 * (zr + zl - 2.0 * zstar) / rm
+                    if overflow:
+                        R = nan_low(D + (zr - zl) * (zr - zl) / (D * M * M * r * r) - 2 * (zr + zl - 2 * zstar) / (r * M))
+                    else:
+                        R = D + (zr - zl) * (zr - zl) / (rm * rm * D) - 2.0 * (zr + zl - 2.0 * zstar) / rm
                 elif zl is None and zr is None:
                     continue           # impossible after the first trial
                 else:
                     zz = zr if zl is None else zl
-                    R = 2.0 * D - 4.0 * (zz - zstar) / rm
+                    R = nan_low(2 * D - 4 * (zz - zstar) / (r * M)) if overflow else 2.0 * D - 4.0 * (zz - zstar) / rm
                 if i == pos:
                     chosen_R = R
                 if best_R is None or R > best_R:
                     best_R = R
             xl, xr = xs[pos - 1], xs[pos]
             zl, zr = zs[pos - 1], zs[pos]
-            if not close(chosen_R, best_R, 1.0) and chosen_R < best_R:
+            if overflow and (chosen_R == best_R or best_R == float("-inf")):
+                pass
+            elif not close(chosen_R, best_R, 1.0) and chosen_R < best_R:
                 bad.append(("argmax", {"k": k, "x": x, "interval": [xl, xr], "R_chosen": chosen_R, "R_max": best_R,
                                        "M": M, "zstar": zstar}))
             if zl is None or zr is None:
@@ -90,7 +101,7 @@ def spec_replay(hist, n, r):
                 dz = zr - zl
                 sg = 1.0 if dz > 0 else (-1.0 if dz < 0 else 0.0)
                 xf = 0.5 * (xl + xr) - sg * pow(abs(dz) / M, n) / (2.0 * r)
-            if not close(x, xf):
+            if not overflow and not close(x, xf):
                 bad.append(("new-point-formula", {"k": k, "x": x, "formula": xf, "interval": [xl, xr], "zl": zl, "zr": zr,
                                                   "M": M}))
             if not (xl < x < xr):
@@ -152,12 +163,16 @@ def check_case(case):
     y05 = tuple(float(v) for v in run.fresh_image(0.5))
     if hist[0][2] != y05:
         vs.append(oc.violation(PROP, case, "first-point", {"evaluated": hist[0][2], "image_of_0.5": y05}))
-    bad, sinfo, M, zstar = spec_replay(hist, case["n"], case["r"])
+    ovf = case["spec"].get("kind") == "band"
+    with np.errstate(all="ignore"):
+        bad, sinfo, M, zstar = spec_replay(hist, case["n"], case["r"], overflow=ovf)
     info.update(sinfo)
     for clause, obs in bad:
         vs.append(oc.violation(PROP, case, clause, obs))
     m = run.solver.method
-    if not close(float(m.M[0]), M) or not close(float(m.Z[0]), zstar):
+    if ovf and not (M == M and abs(M) != float("inf") and abs(zstar) != float("inf")):
+        pass            # (infinite values: M and z* are infinite or undefined on both sides)
+    elif not close(float(m.M[0]), M) or not close(float(m.Z[0]), zstar):
         vs.append(oc.violation(PROP, case, "M-and-zstar", {"solver_M": float(m.M[0]), "spec_M": M, "solver_Z": float(m.Z[0]),
                                                            "spec_zstar": zstar}))
     info["values"] = len({z for _, z, _ in hist})
@@ -167,6 +182,9 @@ def check_case(case):
 def gen(r):
     if r.random() < 0.03:
         return dict(oc.collapse_prone_case(r), solve=False)
+    if r.random() < 0.04:
+        # a huge penalty value on a band of the box: squared differences overflow and characteristics come out as NaN
+        return oc.band_case(r)
     u = r.random()
     spec = None
     n = r.choice((1, 1, 2, 2, 3, 4, 5))
